@@ -142,6 +142,7 @@ func Main(t *testing.T) {
 		defer hashLog.Close()
 	}
 	var curSeed uint64
+	var curParams Params
 	account := func(r *Result) {
 		sum.Execs++
 		if hashLog != nil {
@@ -154,7 +155,7 @@ func Main(t *testing.T) {
 		if r.Hung {
 			sum.Hung++
 			if len(sum.HungSeeds) < 5 {
-				sum.HungSeeds = append(sum.HungSeeds, fmt.Sprintf("%d:%s", curSeed, r.Stuck))
+				sum.HungSeeds = append(sum.HungSeeds, fmt.Sprintf("%d[%s]:%s", curSeed, curParams, r.Stuck))
 			}
 		}
 		for k, v := range r.Probes {
@@ -223,6 +224,7 @@ func Main(t *testing.T) {
 		}
 		seed := SeedFor(base, i)
 		curSeed = seed
+		curParams = nil
 		if sum.Seeds == 0 {
 			sum.FirstSeed = seed
 		}
@@ -257,6 +259,7 @@ func Main(t *testing.T) {
 					complete = false
 					delete(params, "_partial")
 				}
+				curParams = params
 				rp := Exec(t, p, simrt.NewTape(seed, params), tier, false)
 				account(rp)
 				sum.PosExecs++
